@@ -17,6 +17,17 @@ TRUSTED = (
 )
 
 CHECKS = {
+    "C11": dict(
+        technique="TLA+ state machine Suppression.tla (show_error decision chain, unused/bare ignore passes) vs declarative "
+        "RefD, exhaustive TLC; TLC-enumerated files realised as source, checked by the real visitor with the ShowError hook, "
+        "and the Begin/ShowError/End event streams validated step by step by TLC (SuppressionTrace.tla)",
+        text="Model checking: TLC explores every abstract file of <=3 (quick) / <=4 (thorough) lines over 26 line forms x every "
+        "settings combination and proves the machine's output equals the documented projection; the real visitor is bound to "
+        "the machine by trace validation of every show_error decision (hook) and its final failure list is judged by the "
+        "declarative reference inside TLC. Longer files by TLC simulation.",
+        design="2/C11",
+        note=TRUSTED + " Diagnostics are realised with module-level lambdas (undefined_name, unsupported_operation).",
+    ),
     "C18": dict(
         technique="TLA+ spec Config.tla (options.py transcription vs documented precedence) checked exhaustively by TLC; "
         "every TLC-enumerated/simulated case replayed through real TOML files + pyanalyze.options and adjudicated by TLC "
